@@ -224,7 +224,8 @@ impl CommandReader {
             Some(stdout) => stdout,
         };
         drop(stdout);
-        if self.child.wait()?.success() {
+        let status = self.child.wait()?;
+        if status.success() {
             Ok(())
         } else {
             let err = self.stderr.read_to_end();
@@ -235,12 +236,34 @@ impl CommandReader {
             // if we know we haven't hit EOF (so we anticipate a broken pipe
             // error) and if stderr otherwise doesn't have anything on it, then
             // we assume total success.
-            if !self.eof && err.is_empty() {
+            //
+            // Where the platform does tell us that the child was killed by
+            // the pipe signal, whatever the child happened to write to stderr
+            // earlier (a warning, say) does not turn that into a failure.
+            if !self.eof && (err.is_empty() || killed_by_sigpipe(&status)) {
                 return Ok(());
             }
             Err(io::Error::from(err))
         }
     }
+}
+
+/// Returns true if the given exit status says that the process was terminated
+/// by SIGPIPE, which is what happens to a child that keeps writing after we
+/// have closed the reading end of its stdout.
+#[cfg(unix)]
+fn killed_by_sigpipe(status: &process::ExitStatus) -> bool {
+    use std::os::unix::process::ExitStatusExt;
+
+    const SIGPIPE: i32 = 13;
+    status.signal() == Some(SIGPIPE)
+}
+
+/// Returns true if the given exit status says that the process was terminated
+/// by SIGPIPE. This is never known on non-Unix platforms.
+#[cfg(not(unix))]
+fn killed_by_sigpipe(_: &process::ExitStatus) -> bool {
+    false
 }
 
 impl Drop for CommandReader {
